@@ -29,12 +29,18 @@ GNext == \E i \in Slots :
    \/ Start(i) /\ Rec(0, i, "start", "-", 0, "-", <<"-", 0>>, FALSE)
    \/ \E x \in {"e1", "e2", "e3", "ei", "low"}, c \in BOOLEAN :
         Hello(i, x, c) /\ Rec(IF IsReq(i) THEN 2 ELSE 1, i, "hello", x, EphSrc(x), "-", <<"-", 0>>, c)
-   \/ \E src \in 0..3, acct \in Claimable \cup {"-"}, pf \in PfSrc \cup {<<"-", 0>>}, c \in BOOLEAN :
-        Auth(i, src, acct, pf, c) /\ Rec(3, i, "auth", "-", src, acct, pf, c)
-   \/ \E src \in 0..3, pf \in PfSrc \cup {<<"-", 0>>}, c \in BOOLEAN :
-        Accept(i, src, pf, c) /\ Rec(4, i, "accept", "-", src, "-", pf, c)
-   \/ \E src \in 0..3, v \in {"t", "f", "eof"}, c \in BOOLEAN :
-        Ack(i, src, v, c) /\ Rec(5, i, "ack", v, src, "-", <<"-", 0>>, c)
+   \/ \E src \in 1..3, c \in BOOLEAN :
+        Auth(i, src, "-", <<"-", 0>>, c) /\ Rec(3, i, "auth", "-", src, "-", <<"-", 0>>, c)
+   \/ \E acct \in Claimable, pf \in PfSrc :
+        Auth(i, 0, acct, pf, FALSE) /\ Rec(3, i, "auth", "-", 0, acct, pf, FALSE)
+   \/ \E src \in 1..3, c \in BOOLEAN :
+        Accept(i, src, <<"-", 0>>, c) /\ Rec(4, i, "accept", "-", src, "-", <<"-", 0>>, c)
+   \/ \E pf \in PfSrc :
+        Accept(i, 0, pf, FALSE) /\ Rec(4, i, "accept", "-", 0, "-", pf, FALSE)
+   \/ \E src \in 1..3, c \in BOOLEAN :
+        Ack(i, src, "t", c) /\ Rec(5, i, "ack", "t", src, "-", <<"-", 0>>, c)
+   \/ \E v \in {"t", "f", "eof"} :
+        Ack(i, 0, v, FALSE) /\ Rec(5, i, "ack", v, 0, "-", <<"-", 0>>, FALSE)
 GSpec == GInit /\ [][GNext]_gvars
 
 AllTerminal == \A i \in Slots : ~Live(i)
